@@ -37,6 +37,9 @@ def corpus():
         make_case("(CoerceH float)", [("set", "(i 3)")]),
         make_case("(Base (Enum (i 1) (i 2)))", [("set", "(arr 0)"), ("set", "(badeq 0)")]),
         make_case("(Tuple Int Int)", [("set", "(ts (i 1) (i 2))"), ("set", "(ts (b 1) (i 2))")]),
+        # a compound with a Map member is mapped: outside the model (run on the implementation + oracle only)
+        "#" + make_case("(Either 0 Float (Map ((s yes) (i 1)) ((s no) (i 0))))", [("set", "(f 12)"), ("set", "(s yes)"), ("set", "(f 4)")]),
+        "#" + make_case("(Either 0 Float (MapH ((s yes) (i 1)) ((s no) (i 0))))", [("set", "(f 12)"), ("set", "(s yes)")]),
     ]
 
 
@@ -77,7 +80,7 @@ def generate(rng, tier):
             side = [rng.choice(SIDE_OPS) if rng.random() < 0.3 else None for _ in chunk]
             yield make_case(tt, ops, side)
     for _ in range(ncomp):
-        tt = V.random_trait(rng, rng.randint(1, depth))
+        tt = V.random_trait(rng, rng.randint(1, depth), mapped=False)
         ops = [(rng.choice(kinds), V.random_value_for(rng, tt, L)) for _ in range(rng.randint(2, 6))]
         side = [rng.choice(SIDE_OPS) if rng.random() < 0.3 else None for _ in ops]
         yield make_case(tt, ops, side)
@@ -311,16 +314,80 @@ def protocol_exceptions(vterm, acc):
                 acc.add("OverflowError")
     elif h in ("i", "is") and abs(int(vterm[1])) >= 2 ** 1000:
         acc.add("OverflowError")
+    elif h in ("f", "fs", "nf", "flt", "c", "cs", "nc") and ("inf" in show_flat(vterm) or "-inf" in show_flat(vterm)):
+        acc.add("OverflowError")          # int(float('inf')): an overflowing numeric conversion
     elif h in ("t", "ts", "l"):
         for x in vterm[1:]:
             protocol_exceptions(x, acc)
     return acc
 
 
+def show_flat(vterm):
+    return V.show_sexp(vterm).replace("(", " ").replace(")", " ").split()
+
+
+def raiser(t, value, ctx, obj, en):
+    """The innermost member of a compound / tuple whose own validator raises `en`."""
+    if isinstance(t, list) and t[0] in ("Either", "Union", "CompoundH", "Tuple", "BaseTuple"):
+        members = t[2:] if t[0] == "Either" else t[1:]
+        pairs = [(m, value) for m in members]
+        if t[0] in ("Tuple", "BaseTuple"):
+            pairs = list(zip(members, value)) if isinstance(value, (tuple, list)) and len(value) == len(members) else []
+        for m, x in pairs:
+            if m == "NoneT":
+                continue
+            import traits.api as T
+            o = V.build_trait(m, ctx)
+            ct = V.as_ctrait(o)
+            out, _, _ = V.show_outcome(lambda: ct.validate(obj, "x", x), ctx)
+            if out == "exc " + en:
+                return raiser(m, x, ctx, obj, en)
+        return V.trait_head(t)
+    return V.trait_head(t)
+
+
+def acceptor(t, value, stored, ctx, obj):
+    """The innermost member responsible for `stored`: the alternative that alone
+    yields it / the tuple element the reference objects to.  (term, value, stored)"""
+    if isinstance(t, list) and t[0] in ("Either", "Union", "CompoundH"):
+        for m in (t[2:] if t[0] == "Either" else t[1:]):
+            if m == "NoneT":
+                continue
+            ct = V.as_ctrait(V.build_trait(m, ctx))
+            out, r, _ = V.show_outcome(lambda: ct.validate(obj, "x", value), ctx)
+            if out.startswith("ok ") and same(r, stored, ctx):
+                return acceptor(m, value, stored, ctx, obj)
+    elif isinstance(t, list) and t[0] in ("Tuple", "BaseTuple") and isinstance(value, (tuple, list)) \
+            and isinstance(stored, tuple) and len(value) == len(stored) == len(t) - 1:
+        for m, x, y in zip(t[1:], value, stored):
+            if not ref_domain(m, y, ctx) or not conv_ok(m, x, y, ctx):
+                return acceptor(m, x, y, ctx, obj)
+    return t, value, stored
+
+
+def judge_stored(t, value, stored, ctx, obj, where):
+    """Oracle: what is stored lies in the declared domain and is the documented conversion."""
+    in_dom = ref_domain(t, stored, ctx)
+    if in_dom and conv_ok(t, value, stored, ctx):
+        return []
+    lt, lv, ls = acceptor(t, value, stored, ctx, obj)
+    hd = V.trait_head(lt)
+    vc = V.value_class(V.canon(lv, ctx))
+    shown = V.show_value(stored, ctx)
+    if isinstance(lt, list) and lt[0] == "RangeF" and isinstance(ls, float) and ls != ls:
+        return [_hit("float-range-accepts-nan", where + ": stored %s" % shown)]
+    if isinstance(lt, list) and lt[0] == "CoerceH" and ls is lv:
+        return [_hit("coerce-fast-skips-conversion", where + ": stored %s unchanged; the documentation promises a "
+                     "value of the trait's type (coercible values converted)" % shown)]
+    if not ref_domain(lt, ls, ctx):
+        return [_hit("stored-out-of-domain:%s:%s" % (hd, vc), where + ": stored %s, outside the declared domain" % shown)]
+    return [_hit("unexpected-conversion:%s:%s" % (hd, vc), where + ": stored %s, not the documented conversion" % shown)]
+
+
 def mapped_ref(t, w, ctx):
     if isinstance(t, list) and t[0] == "Base":
         return mapped_ref(t[1], w, ctx)
-    if isinstance(t, list) and t[0] == "Map":
+    if isinstance(t, list) and t[0] in ("Map", "MapH"):
         for k, v in t[1:]:
             if safe_eq(V.build_value(k, ctx), w):
                 return True, V.build_value(v, ctx)
@@ -338,7 +405,13 @@ def build_class(decls, ctx):
     ns = {"__repr__": lambda self: "<A>"}
     for name, term in decls:
         o = V.build_trait(term, ctx)
-        ns[name] = o if isinstance(o, T.TraitType) else T.Trait(o)
+        if isinstance(o, T.TraitType):
+            ns[name] = o
+        elif isinstance(term, list) and term[0] == "MapH":
+            # Trait(default, TraitMap(...)): a mapped trait needs a default that is a key
+            ns[name] = T.Trait(V.build_value(term[1][0], ctx), o)
+        else:
+            ns[name] = T.Trait(o)
     A = type("A", (ctx.classes[0],), ns)
     ctx.classes[5] = A
     return A
@@ -349,8 +422,16 @@ def state_of(obj, names, ctx):
     return " ".join("%s=%s" % (n, V.show_value(d[n], ctx)) for n in sorted(names) if n in d)
 
 
+def has_mapped_member(t):
+    if isinstance(t, str):
+        return False
+    if t[0] in ("Map", "MapH", "PrefixMap"):
+        return True
+    return t[0] in ("Either", "CompoundH", "Base") and any(has_mapped_member(x) for x in t[1:])
+
+
 def run_impl(case):
-    kind, env, a, b = case.split("|")
+    kind, env, a, b = case.lstrip("#").split("|")
     assert kind == "a"
     ctx = V.Ctx()
     decls = []
@@ -393,6 +474,11 @@ def run_impl(case):
             # ---- oracle: a failed assignment has no effect at all
             after = obj.__dict__
             if set(after) != set(before) or any(after[x] is not before[x] for x in before):
+                if isinstance(t, list) and t[0] in ("Either", "CompoundH") and has_mapped_member(t) and en in ("KeyError", "TypeError"):
+                    hits.append(_hit("mapped-compound-post-setattr-raises", where + ": raised %s after the value (or the default) "
+                                     "was stored: Map.post_setattr looks the value up without guarding" % en))
+                    outs.append("exc " + en)
+                    continue
                 hits.append(_hit("failed-assignment-had-effect:%s:%s" % (hd, en), where + ": raised %s but the object changed" % en))
             if en == "TraitError":
                 if ("'%s'" % name) not in str(exc):
@@ -401,7 +487,7 @@ def run_impl(case):
             else:
                 allowed = protocol_exceptions(vterm, set())
                 if en not in allowed:
-                    hits.append(_hit("foreign-exception:%s:%s:%s" % (hd, en, vc.split(":")[0]),
+                    hits.append(_hit("foreign-exception:%s:%s" % (raiser(t, value, ctx, obj, en), en),
                                      where + ": raised %s, which is neither TraitError nor raised by the value's own "
                                      "__index__/__float__/__complex__ or an overflowing conversion" % en))
                 outs.append("exc " + en)
@@ -416,13 +502,7 @@ def run_impl(case):
             hits.append(_hit("accepted-but-not-stored:%s" % hd, where))
         else:
             # ---- oracle: what is stored lies in the declared domain and is the documented conversion
-            if not ref_domain(t, stored, ctx):
-                nanrange = isinstance(t, list) and t[0] == "RangeF" and isinstance(stored, float) and stored != stored
-                hits.append(_hit("float-range-accepts-nan" if nanrange else "stored-out-of-domain:%s:%s" % (hd, vc),
-                                 where + ": stored %s, outside the declared domain" % V.show_value(stored, ctx)))
-            elif not conv_ok(t, value, stored, ctx):
-                hits.append(_hit("unexpected-conversion:%s:%s" % (hd, vc),
-                                 where + ": stored %s, not the documented conversion" % V.show_value(stored, ctx)))
+            hits += judge_stored(t, value, stored, ctx, obj, where)
             if getattr(obj, name) is not stored:
                 hits.append(_hit("readable-is-not-stored:%s" % hd, where))
             ok, mv = mapped_ref(t, stored, ctx)
